@@ -533,12 +533,16 @@ func analyzeBounds(p *core.Prog, f *core.Func) []boundsSite {
 			for _, fl := range forLoops {
 				if fl.Body.Pos() <= idx.Pos() && idx.End() <= fl.Body.End() && fl.Cond != nil {
 					for _, fc := range core.DecomposeCond(fl.Cond, true) {
-						if be, ok := core.Unparen(fc.Expr).(*ast.BinaryExpr); ok && fc.Truth && be.Op == token.LSS && core.ObjOf(info, be.X) == o {
-							if k, ok := lenMinus(be.Y, base); ok && k >= 0 {
+						if be, ok := core.Unparen(fc.Expr).(*ast.BinaryExpr); ok && fc.Truth {
+							bound, op, isCmp := orientCmp(info, be, o)
+							if !isCmp || op != token.LSS {
+								continue
+							}
+							if k, ok := lenMinus(bound, base); ok && k >= 0 {
 								return true, "loop condition bounds the index by len"
 							}
 							if bo := core.ObjOf(info, base); bo != nil {
-								if le, ok := madeLenExpr[bo]; ok && le == core.ExprStr(be.Y) {
+								if le, ok := madeLenExpr[bo]; ok && le == core.ExprStr(bound) {
 									return true, "loop condition bounds the index by the length the slice was made with"
 								}
 							}
@@ -557,9 +561,11 @@ func analyzeBounds(p *core.Prog, f *core.Func) []boundsSite {
 			if o := core.ObjOf(info, idx); o != nil {
 				for _, fl := range forLoops {
 					if fl.Body.Pos() <= idx.Pos() && idx.End() <= fl.Body.End() && fl.Cond != nil {
-						if be, ok := core.Unparen(fl.Cond).(*ast.BinaryExpr); ok && core.ObjOf(info, be.X) == o {
-							if c, ok := core.ConstInt(info, be.Y); ok && ((be.Op == token.LSS && c <= l) || (be.Op == token.LEQ && c < l)) {
-								return true, "loop condition bounds the index below the array length"
+						if be, ok := core.Unparen(fl.Cond).(*ast.BinaryExpr); ok {
+							if bound, op, isCmp := orientCmp(info, be, o); isCmp {
+								if c, ok := core.ConstInt(info, bound); ok && ((op == token.LSS && c <= l) || (op == token.LEQ && c < l)) {
+									return true, "loop condition bounds the index below the array length"
+								}
 							}
 						}
 					}
